@@ -1420,7 +1420,8 @@ struct array : static_array<T, D, Alloc> {
 	auto assign(It first, It last) -> array& {
 		using std::all_of;
 		using std::next;
-		if(adl_distance(first, last) == this->size()) {
+		// assign in place only if the sub-arrays have the extensions of the current ones (not just the same count)
+		if(adl_distance(first, last) == this->size() && (this->size() == 0 || multi::extensions(*first) == multi::extensions(*(this->begin())))) {
 			static_::ref::assign(first);
 		} else {
 			this->operator=(array(first, last));
